@@ -820,15 +820,21 @@ theorem header_isEnd (f : NavFile) (hwf : f.wf = true) :
       have := hh h hmem
       simp only [HLine.wf, Bool.and_eq_true, decide_eq_true_eq, Bool.not_eq_eq_eq_not, Bool.not_true, bne_iff_ne,
         List.isEmpty_eq_false_iff] at this
-      obtain ⟨⟨⟨⟨⟨_, hc⟩, _⟩, hcl⟩, hne⟩, hnot⟩ := this
+      obtain ⟨⟨⟨⟨⟨⟨_, hc⟩, _⟩, hcl⟩, hne⟩, hnot⟩, _⟩ := this
       unfold hline
       rw [isEnd_labelled _ _ (length_ljust hc) hcl hne]
       exact decide_eq_false hnot
   · rw [isEnd_labelled _ _ (by simp [blanks]) endLabel_clean.1 endLabel_clean.2.1]
     exact decide_eq_true endLabel_clean.2.2
 
-theorem satSys_header (f : NavFile) (hwf : f.wf = true) (rest : List Str) :
-    satSys ((firstPre f ++ versionLabel) :: rest) = [f.satSys] := by
+/-- the cell read from the first `RINEX VERSION / TYPE` line of a header -/
+def satSysFirst (header : List Str) : Str :=
+  match header.find? (fun l => strip ((rstrip l).drop 60) = "RINEX VERSION / TYPE".toList) with
+  | some l => strip (Text.slice 40 41 (rstrip l))
+  | Option.none => []
+
+theorem satSysFirst_header (f : NavFile) (hwf : f.wf = true) (rest : List Str) :
+    satSysFirst ((firstPre f ++ versionLabel) :: rest) = [f.satSys] := by
   simp only [NavFile.wf, Bool.and_eq_true, decide_eq_true_eq, bne_iff_ne] at hwf
   obtain ⟨⟨⟨⟨⟨⟨⟨⟨⟨_, h1⟩, _⟩, h2⟩, hs⟩, hsp⟩, _⟩, h3⟩, _⟩, _⟩ := hwf
   have hlen := length_firstPre f h1 h2 h3
@@ -858,7 +864,7 @@ theorem satSys_header (f : NavFile) (hwf : f.wf = true) (rest : List Str) :
       rw [hr, hdrop]
       exact decide_eq_true (strip_of_clean versionLabel_clean.1)
     rw [List.find?_cons, this]
-  unfold satSys
+  unfold satSysFirst
   rw [hfind]
   simp only [hr]
   have hcell : Text.slice 40 41 (firstPre f ++ versionLabel) = [f.satSys] := by
@@ -868,6 +874,45 @@ theorem satSys_header (f : NavFile) (hwf : f.wf = true) (rest : List Str) :
     exact slice_cell (by simp [length_ljust h1, length_ljust h2]) rfl
   rw [hcell]
   exact strip_of_no_space (fun c hc => by simp at hc; rw [hc]; exact hnsp)
+
+theorem label_of_line (pre lab : Str) (hl : pre.length = 60) (hc : Clean lab = true) (hne : lab ≠ []) :
+    strip ((rstrip (pre ++ lab)).drop 60) = lab := by
+  rw [rstrip_append_clean hc hne, List.drop_append_of_le_length (by omega)]
+  have : List.drop 60 pre = [] := List.drop_eq_nil_of_le (by omega)
+  rw [this, List.nil_append]
+  exact strip_of_clean hc
+
+/-- the last `RINEX VERSION / TYPE` line of the header counts; a well-formed header has one, its first line -/
+theorem satSys_header (f : NavFile) (hwf : f.wf = true) :
+    satSys ((firstPre f ++ versionLabel) :: (f.hlines.map hline ++ [blanks 60 ++ endLabel])) = [f.satSys] := by
+  have hfirst := satSysFirst_header f hwf []
+  simp only [NavFile.wf, Bool.and_eq_true, decide_eq_true_eq, bne_iff_ne, List.all_eq_true] at hwf
+  obtain ⟨⟨⟨⟨⟨⟨⟨⟨⟨_, h1⟩, _⟩, h2⟩, hs⟩, hsp⟩, _⟩, h3⟩, hh⟩, _⟩ := hwf
+  have hlen := length_firstPre f h1 h2 h3
+  have hrest : ∀ l ∈ (f.hlines.map hline ++ [blanks 60 ++ endLabel]).reverse,
+      ¬ (decide (strip ((rstrip l).drop 60) = "RINEX VERSION / TYPE".toList)) = true := by
+    intro l hl
+    simp only [List.mem_reverse, List.mem_append, List.mem_map, List.mem_singleton] at hl
+    rcases hl with ⟨h, hmem, rfl⟩ | rfl
+    · have := hh h hmem
+      simp only [HLine.wf, Bool.and_eq_true, decide_eq_true_eq, Bool.not_eq_eq_eq_not, Bool.not_true, bne_iff_ne,
+        List.isEmpty_eq_false_iff] at this
+      obtain ⟨⟨⟨⟨⟨⟨_, hc⟩, _⟩, hcl⟩, hne⟩, _⟩, hnv⟩ := this
+      unfold hline
+      rw [label_of_line _ _ (length_ljust hc) hcl hne]
+      intro hd
+      exact hnv (of_decide_eq_true hd)
+    · rw [label_of_line _ _ (by simp [blanks]) endLabel_clean.1 endLabel_clean.2.1]
+      decide +kernel
+  have hthis : decide (strip ((rstrip (firstPre f ++ versionLabel)).drop 60) = "RINEX VERSION / TYPE".toList) = true := by
+    rw [label_of_line _ _ hlen versionLabel_clean.1 versionLabel_clean.2.1]
+    decide +kernel
+  unfold satSys
+  rw [List.reverse_cons, List.find?_append, List.find?_eq_none.mpr hrest]
+  simp only [Option.none_or, List.find?_cons, hthis]
+  unfold satSysFirst at hfirst
+  simp only [List.find?_cons, hthis] at hfirst
+  exact hfirst
 
 theorem nonl_headerLines (f : NavFile) (hwf : f.wf = true) : ∀ l ∈ headerLines f, NoNl l := by
   simp only [NavFile.wf, Bool.and_eq_true, decide_eq_true_eq, List.all_eq_true] at hwf
@@ -885,7 +930,7 @@ theorem nonl_headerLines (f : NavFile) (hwf : f.wf = true) : ∀ l ∈ headerLin
     exact nonl_cons (this f.satSys (by simp)) (nonl_ljust _ (nonl_okText hst))
   · have := hh h hmem
     simp only [HLine.wf, Bool.and_eq_true] at this
-    exact nonl_append (nonl_ljust _ (nonl_okText this.1.1.1.1.1)) (nonl_okText this.1.1.1.2)
+    exact nonl_append (nonl_ljust _ (nonl_okText this.1.1.1.1.1.1)) (nonl_okText this.1.1.1.1.2)
   · exact nonl_append (nonl_blanks _) hend
 
 theorem textLines_joinLines (ls : List Str) (h : ∀ l ∈ ls, NoNl l) : textLines (joinLines ls) = ls := by
